@@ -16,6 +16,7 @@ import (
 	"testing"
 	"time"
 
+	"falcosim/sim/simsync"
 	"falcosim/sim/tape"
 )
 
@@ -167,6 +168,7 @@ func runOne(e *Engine, job *Job, tb *testing.T, tp *tape.Tape, render bool) (res
 			err = fmt.Errorf("harness panic: %v\n%s", r, debug.Stack())
 		}
 	}()
+	simsync.ResetPools() // every case starts from empty pools: it replays alone
 	e.Run(ctx)
 	res.LogHash = ctx.logHash
 	return res, ctx, nil
@@ -355,8 +357,16 @@ func runShrink(tb *testing.T, e *Engine, job *Job, out *Out) {
 		budget = 400
 	}
 	runs := 0
+	// wall-clock cap as well: minimisation stops where it is, the tape found so
+	// far is still a reproducing one
+	secs := 45
+	if v := os.Getenv("FALCOSIM_SHRINK_SECONDS"); v != "" {
+		fmt.Sscanf(v, "%d", &secs)
+	}
+	stopAt := time.Now().Add(time.Duration(secs) * time.Second)
 	try := func(vals []uint64) ([]uint64, bool) {
-		if runs >= budget {
+		if runs >= budget || (runs > 0 && time.Now().After(stopAt)) {
+			runs = budget
 			return nil, false
 		}
 		runs++
